@@ -9,6 +9,7 @@ import (
 	"os"
 	"strconv"
 	"strings"
+	"sync"
 	"testing"
 	"time"
 
@@ -104,6 +105,32 @@ func TestVerifReplay(t *testing.T) {
 			if tx.seq != wire {
 				fmt.Println("REPLAY-CONFIRMED txseq24: the key's sequence number is not the 24-bit number on the wire; the response can never match")
 			}
+		}
+	case strings.Contains(m.Obligation, "receiver#at{copy}.marker"):
+		// a running server (real main loop and receiver) is sent one empty UDP datagram
+		cfg := &factory.Config{Pfcp: &factory.Pfcp{Addr: "127.7.7.80", NodeID: "127.7.7.80", RetransTimeout: time.Hour, MaxRetrans: 1}}
+		s := NewPfcpServer(cfg, forwarder.Empty{})
+		var wg sync.WaitGroup
+		s.Start(&wg)
+		time.Sleep(200 * time.Millisecond)
+		c, err := net.DialUDP("udp4", nil, &net.UDPAddr{IP: net.IPv4(127, 7, 7, 80), Port: 8805})
+		if err != nil {
+			t.Fatal(err)
+		}
+		defer c.Close()
+		if _, err := c.Write([]byte{}); err != nil {
+			t.Fatal(err)
+		}
+		time.Sleep(300 * time.Millisecond)
+		stopped := false
+		select {
+		case _, ok := <-s.rcvCh:
+			stopped = !ok
+		default:
+		}
+		fmt.Printf("after one empty datagram: event loop has returned and closed its channels: %v\n", stopped)
+		if stopped {
+			fmt.Println("REPLAY-CONFIRMED marker: an empty datagram is queued as the receiver's close marker; the event loop stops serving (and the next datagram makes the receiver panic on the closed channel and the process exit)")
 		}
 	case strings.Contains(m.Obligation, "UpdatePDR#refadd"):
 		// URR 1 exists, PDR 1 is created without URRs, then an Update PDR names URR 1: the URR is now referenced by
